@@ -198,7 +198,7 @@ func Run(r *fw.Run) {
 			}
 	})
 	// second alphabet: punctuation and a Windows reserved name, for versions (file-name elements) and paths
-	alpha2 := []string{"c", "o", "n", ".", "+", "~", " ", "A", "_", "/"}
+	alpha2 := []string{"c", "o", "n", ".", "+", "~", " ", "A", "_", "/", "!"}
 	L2 := r.Pick(6, 7)
 	r.Bounds["second_alphabet"] = alpha2
 	r.Bounds["second_alphabet_max_len"] = L2
